@@ -1,3 +1,4 @@
+import PoaVerif.Facts
 import PoaVerif.Lemmas.FramePoa
 import PoaVerif.Props.C15
 import PoaVerif.Model.Spec
@@ -12,6 +13,19 @@ namespace PoaVerif.Props.C10
 open App
 
 theorem facts_create : Generated.createStepsPresentInOrder = true := by decide
+
+/-- admission (`AcceptNewValidator`): the stored application is loaded, converted, written to x/staking, **removed from
+    the pending list**, given its signing info, and the pool is updated — these calls, in this order, none skipped;
+    the pending list is written by `AddPendingValidator` / `RemovePendingValidator` through the stored item only, and
+    "is it pending" is answered from the stored list -/
+theorem facts_admission : Generated.acceptNewValidatorCalls =
+    ["GetPendingValidator", "ConvertPOAToStaking", "setValidatorInternals", "SetNewValidatorByPowerIndex", "RemovePendingValidator",
+     "UnwrapSDKContext", "setSlashingInfo", "EmitEvents", "EventManager", "NewEvent", "NewAttribute", "NewAttribute", "UpdateBondedPoolPower"] := by decide
+
+theorem facts_pending_store :
+    Generated.addPendingCalls = ["NewAnyWithValue", "ConvertStakingToPOA", "GetPendingValidators", "append", "Set"] ∧
+    Generated.removePendingCalls = ["GetPendingValidators", "append", "Set"] ∧
+    Generated.isPendingCalls = ["GetPendingValidator"] := by decide
 
 /-! ### who touches the pending list -/
 
